@@ -52,7 +52,7 @@ def r1_constant(ctx):
     want = {"MAX": "np.nanmax($2, axis=0)", "MEAN": "np.nanmean($2, axis=0)", "LAST": f"$2[{order}[0]]",
             "LAST_KNOWN": f"$2[{order}][(~np.isnan($2[{order}])).argmax(axis=0), range($2.shape[1])]"}
     # equivalent forms confirmed by reading (argmax returns the first maximum, like the stable descending sort)
-    alt = {"LAST": {f"$2[{order}][0]", "$2[$1.argmax()]", "$2[np.argmax($1)]", "$2[np.asarray($1).argmax()]"}, "MAX": {"np.nanmax($2, 0)"}, "MEAN": {"np.nanmean($2, 0)"}}
+    alt = {"LAST": {f"$2[{order}][0]", "$2[$1.argmax()]", "$2[np.argmax($1)]", "$2[np.asarray($1).argmax()]"}, "MAX": {"np.nanmax($2, 0)", "np.fmax.reduce($2, axis=0)", "np.fmax.reduce($2, 0)", "np.fmax.reduce($2)"}, "MEAN": {"np.nanmean($2, 0)"}}
     for m in members:
         if m not in want:
             ctx.unknown("C20.R1", f, f.node, f"new prediction type {m}: no documented estimator to compare with", construct=f"prediction type {m}")
